@@ -132,7 +132,7 @@ CHECKS["C01"] = {
     "engine": "E1",
     "technique": "bounded exhaustive enumeration of all configuration trees over a name universe, per parameter shape, real layered read on a real tmpfs tree against a reference lookup",
     "level_text": "every tree (3-4 layers x main file {absent, regular, empty, ->/dev/null} x every subset of the drop-in name universe per layer) is "
-                  "materialised on tmpfs and read by the real econf_readConfigWithCallback for 15 parameter shapes; return code, the sequence of paths "
+                  "materialised on tmpfs and read by the real econf_readConfigWithCallback for 17 parameter shapes (incl. a key-less drop-in in the highest layer, every second file setting one key to the empty value); return code, the sequence of paths "
                   "given to the callback and the resulting (section,key)->value map are compared with a reference written from the statement; file contents "
                   "encode which files were applied and the relative order of every pair",
     "level_note": "bounded: name universe of 4 (quick) / 6 (thorough) names for the default shape plus a second universe of 4 / 6 names (dot file, name without suffix, thorough: bare suffix, x.conf.bak), 2-3 / 4 names for the other shapes; C locale only (alphasort = byte order); "
